@@ -22,7 +22,7 @@ WFImg(v) == CASE v.t = "num" -> TRUE [] v.t = "arr" -> \A i \in DOMAIN v.a : WFI
               [] v.t = "obj" -> SortedKeys(v) /\ \A i \in DOMAIN v.o : WFImg(v.o[i].v) [] OTHER -> TRUE
 Inv_Total == WFImg(Image(t))
 Inv_Transparent == t.k \in {"some", "newtype_struct"} => Image(t) = Image(t.x)
-Inv_NonFinite == (t.k \in {"f32", "f64"} /\ "special" \in DOMAIN t /\ t.special # "negzero") => Image(t) = JNull
+Inv_NonFinite == (t.k \in {"f32", "f64"} /\ "special" \in DOMAIN t /\ t.special \notin {"negzero", "tiny", "tiny64"}) => Image(t) = JNull
 Inv_Variants == t.k \in {"newtype_variant", "tuple_variant", "struct_variant"} => (Image(t).t = "obj" /\ Len(Image(t).o) = 1)
 Inv_LastDup == (t.k = "struct" /\ Len(t.fs) = 2 /\ t.fs[1].f = t.fs[2].f) => Image(t) = JObj(<<JMem(FieldName(t.fs[2].f), Image(t.fs[2].v))>>)
 =============================================================================
